@@ -28,7 +28,44 @@ import (
 const c05_risorModule = "github.com/risor-io/risor"
 
 // packages in scope of the property, relative to the repository root ("" = root package)
-var c05Scope = []string{"", "ast", "builtins", "compiler", "errz", "importer", "object", "op", "os", "parser", "vm"}
+var c05Scope = []string{"", "ast", "builtins", "compiler", "errz", "importer", "object", "op", "os", "parser", "vm",
+	// every package of the root module a script can reach through the default globals (the
+	// modules that are Go modules of their own — aws, sql, … — are not built into the harness)
+	"arg", "lexer", "limits", "token",
+	"modules/all", "modules/base64", "modules/bytes", "modules/dns", "modules/errors", "modules/exec", "modules/filepath",
+	"modules/fmt", "modules/http", "modules/json", "modules/math", "modules/net", "modules/os", "modules/rand", "modules/regexp",
+	"modules/strconv", "modules/strings", "modules/time"}
+
+// c05_rootModules lists the directories under modules/ that belong to the root module (no
+// go.mod of their own): the scope above must name every one of them
+func c05_rootModules(repo string) []string {
+	ents, err := os.ReadDir(filepath.Join(repo, "modules"))
+	if err != nil {
+		panic(err)
+	}
+	var out []string
+	for _, e := range ents {
+		if !e.IsDir() {
+			continue
+		}
+		dir := filepath.Join(repo, "modules", e.Name())
+		if _, err := os.Stat(filepath.Join(dir, "go.mod")); err == nil {
+			continue
+		}
+		gos, _ := filepath.Glob(filepath.Join(dir, "*.go"))
+		has := false
+		for _, g := range gos {
+			if !strings.HasSuffix(g, "_test.go") {
+				has = true
+			}
+		}
+		if has {
+			out = append(out, "modules/"+e.Name())
+		}
+	}
+	sort.Strings(out)
+	return out
+}
 
 func init() {
 	generators = append(generators, generator{"C05", c05_genC05})
@@ -342,11 +379,126 @@ func c05_genC05(repo string) string {
 		}
 		return strings.Join(q, ", ")
 	}())
+	fmt.Fprintf(&sb, "\n/-- the directories under modules/ that are part of the root module (no go.mod of their own) -/\ndef rootModules : List String := [%s]\n", func() string {
+		var q []string
+		for _, r := range c05_rootModules(repo) {
+			q = append(q, leanStr(r))
+		}
+		return strings.Join(q, ", ")
+	}())
+	c05_marshalPaths(im, &sb)
 	c05_objectTypes(im, &sb)
 	c05_printableDispatch(im, &sb)
 	c05_formatSites(repo, &sb)
 	sb.WriteString("\nend Risor.Generated.C05\n")
 	return sb.String()
+}
+
+// ---------------------------------------------------------------------------------------
+// the json paths: the MarshalJSON method of every type of package object, summarised as
+//   fails                      the body is a single `return nil, <non-nil expression>`
+//   json.Marshal(<expr>)       the body ends in a single `return json.Marshal(<expr>)` and has no
+//                              loop; a struct literal argument is printed as `struct`
+//   bytes                      every return is `[]byte(...), nil`, no loop, no json.Marshal
+//   other[,range][,loop]       anything else (a hand-written walk over the elements)
+func c05_marshalPaths(im *c05_repoImporter, sb *strings.Builder) {
+	path := c05_risorModule + "/object"
+	files := im.files[path]
+	type row struct{ ty, what string }
+	var rows []row
+	for _, f := range files {
+		for _, d := range f.Decls {
+			fd, ok := d.(*ast.FuncDecl)
+			if !ok || fd.Body == nil || fd.Name.Name != "MarshalJSON" || fd.Recv == nil {
+				continue
+			}
+			hasRange, hasLoop, nMarshal := false, false, 0
+			var rets []*ast.ReturnStmt
+			ast.Inspect(fd.Body, func(n ast.Node) bool {
+				switch x := n.(type) {
+				case *ast.RangeStmt:
+					hasRange = true
+				case *ast.ForStmt:
+					hasLoop = true
+				case *ast.ReturnStmt:
+					rets = append(rets, x)
+				case *ast.CallExpr:
+					if sel, ok := x.Fun.(*ast.SelectorExpr); ok {
+						if id, ok := sel.X.(*ast.Ident); ok && id.Name == "json" && strings.HasPrefix(sel.Sel.Name, "Marshal") {
+							nMarshal++
+						}
+					}
+				case *ast.FuncLit:
+					return false
+				}
+				return true
+			})
+			isNil := func(e ast.Expr) bool { id, ok := e.(*ast.Ident); return ok && id.Name == "nil" }
+			isBytes := func(e ast.Expr) bool {
+				c, ok := e.(*ast.CallExpr)
+				if !ok {
+					return false
+				}
+				at, ok := c.Fun.(*ast.ArrayType)
+				if !ok || at.Len != nil {
+					return false
+				}
+				id, ok := at.Elt.(*ast.Ident)
+				return ok && id.Name == "byte"
+			}
+			what := ""
+			last, _ := fd.Body.List[len(fd.Body.List)-1].(*ast.ReturnStmt)
+			switch {
+			case hasRange || hasLoop:
+			case len(fd.Body.List) == 1 && last != nil && len(last.Results) == 2 && isNil(last.Results[0]) && !isNil(last.Results[1]):
+				what = "fails"
+			case len(rets) == 1 && last != nil && len(last.Results) == 1 && nMarshal == 1:
+				if c, ok := last.Results[0].(*ast.CallExpr); ok && len(c.Args) == 1 {
+					if sel, ok := c.Fun.(*ast.SelectorExpr); ok && sel.Sel.Name == "Marshal" {
+						if _, isLit := c.Args[0].(*ast.CompositeLit); isLit {
+							what = "json.Marshal(struct)"
+						} else if len(fd.Body.List) == 1 {
+							what = "json.Marshal(" + types.ExprString(c.Args[0]) + ")"
+						}
+					}
+				}
+			case nMarshal == 0 && len(rets) > 0:
+				all := true
+				for _, r := range rets {
+					if len(r.Results) != 2 || !isBytes(r.Results[0]) || !isNil(r.Results[1]) {
+						all = false
+					}
+				}
+				if all {
+					what = "bytes"
+				}
+			}
+			if what == "" {
+				what = "other"
+				if hasRange {
+					what += ",range"
+				}
+				if hasLoop {
+					what += ",loop"
+				}
+			}
+			rows = append(rows, row{c05_recvName(fd), what})
+		}
+	}
+	if len(rows) < 10 {
+		panic(fmt.Sprintf("only %d MarshalJSON methods found in package object", len(rows)))
+	}
+	sort.Slice(rows, func(i, j int) bool { return rows[i].ty < rows[j].ty })
+	sb.WriteString("\n/-- the MarshalJSON method of every type of package object: (type, what its body does) -/\n")
+	sb.WriteString("def marshalPaths : List (String × String) := [\n")
+	for i, r := range rows {
+		sep := ","
+		if i == len(rows)-1 {
+			sep = ""
+		}
+		fmt.Fprintf(sb, "  (%s, %s)%s\n", leanStr(r.ty), leanStr(r.what), sep)
+	}
+	sb.WriteString("]\n")
 }
 
 // ---------------------------------------------------------------------------------------
